@@ -247,17 +247,15 @@ func (v *Version) Compare(other *Version) int {
 
 // splitNumericAndPrerelease splits version into numeric and prerelease parts
 func (v *Version) splitNumericAndPrerelease() ([]segment, []segment) {
-	var numeric, prerelease []segment
-
-	for _, seg := range v.segments {
-		if seg.isNumeric {
-			numeric = append(numeric, seg)
-		} else {
-			prerelease = append(prerelease, seg)
+	// The prerelease part starts at the first non-numeric segment and keeps
+	// everything after it, numbers included (1.0.0.rc1 is 1.0.0 + rc.1)
+	for i, seg := range v.segments {
+		if !seg.isNumeric {
+			return v.segments[:i], v.segments[i:]
 		}
 	}
 
-	return numeric, prerelease
+	return v.segments, nil
 }
 
 // compareSegmentArrays compares two arrays of segments
